@@ -35,6 +35,14 @@ def run_model(ctx, key, pkg, nsets, flavors):
                 ctx.ev()
                 ctx.count("corpus." + ep.name)
                 rt.judge(ctx, m, proto, vals, data, r, ep.name, "bin", "corpus %s/%s set %d" % (key, proto.name, k), {"key": key, "set": k})
+            # the other ways of calling the generated writer: batches of 3 through the vector overloads, with empty batches in between
+            nstreams = sum(1 for _, t in proto.steps if isinstance(c.fq(t), S))
+            if nstreams and k < 2:
+                epb = rt.CppEndpoint(m, flavors[0], bufs=[3] * nstreams, empty_batches=True)
+                r = epb.copy(proto.name, "bin", "bin", data)
+                ctx.ev()
+                ctx.count("corpus.batched." + epb.name)
+                rt.judge(ctx, m, proto, vals, data, r, epb.name, "bin", "corpus %s/%s set %d (writer called with batches of 3 and empty batches)" % (key, proto.name, k), {"key": key, "set": k, "batched": True})
         for _, t in proto.steps:
             for x in walk_types(t):
                 ctx.count("shape." + type(x).__name__)
